@@ -25,7 +25,16 @@ import traceback
 ROOT = os.path.dirname(os.path.dirname(os.path.abspath(__file__)))
 COQ = os.path.join(ROOT, "coq")
 SRC = os.environ.get("PYTTB_SRC", "/repo")
-NPROC = 16
+def _nproc():
+    """parallelism of make / case shards: 16 unless VERIF_NPROC or the (untracked, lead-only) file tools/.nproc says otherwise
+    (used to throttle the machine while many builders share it; has no influence on verdicts)"""
+    try:
+        return max(1, int(os.environ.get("VERIF_NPROC") or open(os.path.join(os.path.dirname(os.path.abspath(__file__)), ".nproc")).read().strip()))
+    except Exception:
+        return 16
+
+
+NPROC = _nproc()
 
 ALLOWED_AXIOMS = {
     "ClassicalDedekindReals.sig_not_dec", "ClassicalDedekindReals.sig_forall_dec",
